@@ -424,6 +424,31 @@ def abandoned_loop_rule(facts, R):
     R.note("retry-loop futures handed to a racing combinator: %d" % n)
 
 
+def uncounted_attempt_rule(facts, R):
+    """max_attempts bounds how often ONE request is sent.  The loops count their own attempts; a fleet function that has already tried
+    the request itself (a direct client call, a batch) and then hands it to a retry loop starts that loop's counter at zero, so the
+    request can be sent max_attempts + 1 times.  Wherever a `*_with_retry` loop is called, no client request was made earlier on
+    the path."""
+    listed = {p for p, _ in LOOPS}
+    n = 0
+    for b in facts.bodies.values():
+        if not b.path.startswith(("async_fleet::", "fleet::")) or b.path in listed or "::tests::" in b.path:
+            continue
+        loops_ = [(i, t) for i, t in b.calls() if t["callee"]["name"].endswith("_with_retry") and t["callee"]["path"].startswith(("fleet::", "async_fleet::"))]
+        if not loops_:
+            continue
+        tries = [(i, t) for i, t in b.calls() if ("client::" in t["callee"]["path"] or "Client" in t["callee"]["path"].split("<")[0]) and
+                 t["callee"]["name"].startswith(("call", "batch", "notify", "send", "request"))]
+        for i, t in loops_:
+            n += 1
+            before = [(j, u) for j, u in tries if i in b.reachable(starts=tuple(b.succs(j)))]
+            R.check(not before, "bounded-loop", b.path, "nothing is sent before the retry loop starts counting",
+                    "%s sends the request itself (%s) and then hands it to %s, whose attempt counter starts at zero: the request can be sent max_attempts + 1 times" % (
+                        b.path.rsplit("::", 2)[-2 if "{closure" in b.path else -1], before[0][1]["callee"]["path"].rsplit("::", 1)[-1] if before else "", t["callee"]["name"]),
+                    t.get("span"), "no client request reaches this call")
+    R.floor("bounded-loop", n, 6, "calls of the retry loops from other fleet functions")
+
+
 def derived_loops(facts):
     """Retry loops the table does not list: any other function of the fleet modules that (re)connects inside a cycle
     (`ensure_connected` on a CFG cycle) is a retry loop of its own - a generic `call_with(op)`, a typed sibling - and owes the same
@@ -449,6 +474,7 @@ def run(facts, R):
     for path, module in LOOPS:
         analyse_loop(facts, R, path, module)
     abandoned_loop_rule(facts, R)
+    uncounted_attempt_rule(facts, R)
     attempt_timeout_rule(facts, R)
     k1 = retryable_table(facts, R, "fleet")
     k2 = retryable_table(facts, R, "async_fleet")
